@@ -1407,7 +1407,7 @@ func (p *Program) mailboxLookup(lc *lifecycle) *ssa.Function {
 		if fn.Parent() == nil && res.Len() == 1 && mb != nil && types.Identical(res.At(0).Type(), mb) && fn.Signature.Params().Len() == 1 {
 			has := false
 			for _, ifi := range ifsOf(fn) {
-				if f, ok := condFact(ifi.Cond, true); ok && f.Y != nil && anyContains(p.origins(f.X), "GetAddress") && anyContains(p.origins(f.Y), "GetAddress") {
+				if f, ok := condFact(ifi.Cond, true); ok && f.Y != nil && p.viaRefAccessor(lc, f.X, "GetAddress") && p.viaRefAccessor(lc, f.Y, "GetAddress") {
 					has = true
 				}
 			}
@@ -1443,7 +1443,7 @@ func c15Routing(p *Program, r *Report) {
 			if !ok || f.Y == nil || f.Op != token.NEQ {
 				continue
 			}
-			if anyContains(p.origins(f.X), "GetAddress") && anyContains(p.origins(f.Y), "GetAddress") {
+			if p.viaRefAccessor(lc, f.X, "GetAddress") && p.viaRefAccessor(lc, f.Y, "GetAddress") {
 				diff[g.branchEdge(ifi, outcome)] = true
 			}
 		}
@@ -1633,6 +1633,7 @@ func c11KeepHealthy(p *Program, r *Report) {
 func leafCalls(v ssa.Value) map[string]bool {
 	leaves := map[string]bool{}
 	seen := map[ssa.Value]bool{}
+	bind := map[*ssa.Parameter]ssa.Value{}
 	var walk func(v ssa.Value, d int)
 	walk = func(v ssa.Value, d int) {
 		if v == nil || seen[v] || d > 10 {
@@ -1640,6 +1641,10 @@ func leafCalls(v ssa.Value) map[string]bool {
 		}
 		seen[v] = true
 		switch x := v.(type) {
+		case *ssa.Parameter:
+			if a, ok := bind[x]; ok {
+				walk(a, d+1)
+			}
 		case *ssa.BinOp:
 			walk(x.X, d+1)
 			walk(x.Y, d+1)
@@ -1661,6 +1666,21 @@ func leafCalls(v ssa.Value) map[string]bool {
 				walk(x.Call.Value, d+1)
 			} else {
 				leaves[calleeQual(&x.Call)] = true
+				// a module helper that builds the value: what it returns, with its parameters standing for the arguments
+				if y := x.Call.StaticCallee(); y != nil && len(y.Blocks) > 0 && theProgram != nil && theProgram.inModule(y) && d < 6 {
+					for i, prm := range y.Params {
+						if i < len(x.Call.Args) {
+							bind[prm] = x.Call.Args[i]
+						}
+					}
+					for _, b := range y.Blocks {
+						if ret, ok := b.Instrs[len(b.Instrs)-1].(*ssa.Return); ok {
+							for _, res := range ret.Results {
+								walk(res, d+1)
+							}
+						}
+					}
+				}
 			}
 			for _, a := range x.Call.Args {
 				if elems, ok := varargElems(a); ok {
@@ -2111,4 +2131,33 @@ func c14StopAborts(p *Program, r *Report) {
 		}
 	}
 	r.Check(okS, "a stopped system aborts the send", rm.SendLoop.Pos(), "the send closure returns abort=true when the system context is cancelled")
+}
+
+
+// viaRefAccessor: v is the result of the reference accessor of that name (GetAddress / GetPath of the ActorRef API) — the call
+// itself, or, when the concrete accessor was spliced into the graph, the field it returns.
+func (p *Program) viaRefAccessor(lc *lifecycle, v ssa.Value, name string) bool {
+	o := p.origins(v)
+	if anyContains(o, name) {
+		return true
+	}
+	if lc == nil || lc.RefF == nil {
+		return false
+	}
+	rt := namedOf(lc.RefF.Type())
+	if rt == nil {
+		return false
+	}
+	acc := p.methodNamed(rt, name)
+	if acc == nil {
+		return false
+	}
+	for _, b := range acc.Blocks {
+		if ret, ok := b.Instrs[len(b.Instrs)-1].(*ssa.Return); ok && len(ret.Results) == 1 {
+			if f, _ := fieldLoad(strip(ret.Results[0])); f != nil && anyContains(o, "field:"+ownerName(f)+"."+f.Name()+"<-") {
+				return true
+			}
+		}
+	}
+	return false
 }
